@@ -4,10 +4,10 @@ package main
 import (
 	"bytes"
 	"flag"
-	"runtime"
-	"runtime/pprof"
 	"fmt"
 	"os"
+	"runtime"
+	"runtime/pprof"
 	"time"
 
 	"otterverif/internal/conc"
